@@ -38,6 +38,7 @@ an arbitrary capacity `m ≥ 1` and an arbitrary first copy identity `base`.
 import DeapModel.Lemmas.C08Worst
 import DeapModel.Lemmas.C08Batch
 import DeapModel.Lemmas.C08HeapProps
+import DeapModel.Lemmas.C08Gen
 
 set_option linter.unusedSectionVars false
 set_option linter.unusedSimpArgs false
